@@ -8,7 +8,7 @@
 static int mode;   /* 6 or 10 */
 
 /* =================================================================== C06 */
-static struct { arb arb; uint8_t apparent; } M6;
+static struct m6 { arb arb; uint8_t apparent; } M6;
 static pev SV[64]; static int NSV;                 /* state alphabet */
 static const uint16_t SEQS[4] = {1, 0x0102, 0xFFFF, 0x0100};   /* 0x0100: low byte zero */
 static const uint8_t PAUSES[3] = {0, 1, 255};
@@ -59,6 +59,7 @@ static void s_name(int ev, char *buf, size_t cap) {
     snprintf(buf, cap, "Emit(from active mapper,seq=0x%04x,family=%s,n=%d,idx=%d)", SEQS[seqi], fn[fam], n, idx);
 }
 
+static int opened_only;      /* the family runs in a state whose session was opened by a command (see on_new_state6) */
 static void oracle_emit(int code, uint16_t seq) {
     char nm[160]; s_name(code, nm, sizeof nm);
     const uint8_t *own = W.iface[0].mac;
@@ -90,7 +91,8 @@ static void oracle_emit(int code, uint16_t seq) {
     const vf_trec *t = &W.trace[ti]; wd_frame f; wd_decode(tr_bytes(t), t->len, &f);
     if (t->len != 32 || f.opcode != 0x05) { vf_violation("emit:ack-malformed", "%s: frame after the probes has opcode 0x%02x, %u bytes", nm, f.opcode, t->len); return; }
     if (f.seq != seq) vf_violation("emit:ack-sequence", "%s: ACK carries sequence number 0x%04x", nm, f.seq);
-    if (memcmp(f.ethdst, pev_addr(M6.apparent, 0), 6) || memcmp(f.realdst, pev_addr(M6.arb.v, 0), 6))
+    /* session opened by a command: which next hop the responder remembers for that station is not stated - only the real destination is checked */
+    if ((!opened_only && memcmp(f.ethdst, pev_addr(M6.apparent, 0), 6)) || memcmp(f.realdst, pev_addr(M6.arb.v, 0), 6))
         vf_violation("emit:ack-destination", "%s: ACK not addressed to the mapper (Ethernet %02x:..:%02x, real %02x:..:%02x)", nm, f.ethdst[0], f.ethdst[5], f.realdst[0], f.realdst[5]);
     if (memcmp(f.ethsrc, own, 6) || memcmp(f.realsrc, own, 6)) vf_violation("emit:ack-source", "%s: ACK not sourced from the own address", nm);
     ti++;
@@ -134,11 +136,12 @@ static void run_family_here(void) {
     static int path[4100]; memcpy(path, p.ev, sizeof(int) * (size_t)p.n);
     vf_snap *s = vf_snapshot(&M6, sizeof M6);
     states_with_mapper++;
-    int heavy = !heavy_done[M6.arb.v][M6.apparent]; heavy_done[M6.arb.v][M6.apparent] = 1;
+    int heavy = !opened_only && !heavy_done[M6.arb.v][M6.apparent]; if (!opened_only) heavy_done[M6.arb.v][M6.apparent] = 1;
     int F = (int)fit();
 #define RUN(code) do { vf_restore(s, &M6, sizeof M6); path[p.n] = (code); e1_manual_path(&cfg6, path, p.n + 1); do_emit(code); emits_run++; } while (0)
     for (int seqi = 0; seqi < 4; seqi++) {
         for (int idx = 0; idx < 18; idx++) RUN(emit_code(0, seqi, 1, idx));
+        if (opened_only) { if (seqi == 0) for (int k = 0; k < 6; k++) RUN(emit_code(8, 1, 1, k)); continue; }
         for (int idx = 0; idx < 324; idx++) RUN(emit_code(0, seqi, 2, idx));
         if (!heavy) continue;
         if (seqi == 0 || vf_thorough()) for (int idx = 0; idx < 5832; idx++) RUN(emit_code(0, seqi, 3, idx));
@@ -154,7 +157,18 @@ static void run_family_here(void) {
     free(s);
     e1_manual_path(&cfg6, NULL, 0);
 }
-static void on_new_state6(int depth) { (void)depth; if (M6.arb.v != ARB_NONE && M6.arb.v != ARB_TOP && !(M6.arb.v & ARB_OPENED) && M6.apparent != 0xFF) run_family_here(); }
+/* also in states whose session was opened by a COMMAND of station X (no Discover / Hello yet): X is the only station that can
+ * be the mapper there (the arbiter's OPENED|X), and an Emit of X, sent directly, is executed like any other - the small
+ * tuples and the misaddressed family only (the model is put on "X is the mapper, directly attached" for the family runs) */
+static void on_new_state6(int depth) {
+    (void)depth;
+    if (M6.arb.v != ARB_NONE && M6.arb.v != ARB_TOP && !(M6.arb.v & ARB_OPENED) && M6.apparent != 0xFF) run_family_here();
+    else if (M6.arb.v != ARB_TOP && (M6.arb.v & ARB_OPENED)) {
+        struct m6 keep = M6; M6.arb.v = (uint8_t)(keep.arb.v & 0x7F); M6.apparent = M6.arb.v;
+        opened_only = 1; run_family_here(); opened_only = 0;
+        M6 = keep;
+    }
+}
 
 static void build_state_alphabet(void) {
     NSV = 0;
@@ -174,7 +188,7 @@ static void build_state_alphabet(void) {
 /* =================================================================== C10 */
 /* interface 0 = responder A, interface 1 = responder B, one core instance serves both (as in the daemons) */
 static struct m10 { uint8_t qn; uint8_t q[3][32]; uint16_t delivered; } M10;   /* delivered: bit (srcidx*2+kind) */
-enum { X_DISC_A, X_DISC_A_BR, X_DISC_B, X_DELIVER, X_HELLO_B, X_PROBE_PEER_B, X_QUERY_B, X_QUERY_B_BR, X_RESET_B, X_OTHER_EMITTER_B, X_QRESET_B, X_EMIT_X, X_EMIT0 };
+enum { X_DISC_A, X_DISC_A_BR, X_DISC_B, X_DELIVER, X_HELLO_B, X_PROBE_PEER_B, X_QUERY_B, X_QUERY_B_BR, X_RESET_B, X_OTHER_EMITTER_B, X_QRESET_B, X_EMIT_X, X_QLT_B, X_EMIT0 };
 static int QCAP = 3;                    /* bound on the in-flight queue (quick tier: 2) */
 static int NEMIT; static struct { uint8_t n; uint8_t d[2]; } EM[512];     /* descriptor code: kind | pause<<1 | dstB<<2 | srcA<<3 | srcB<<4 (the mapper may choose ANY Ethernet source, also the observer's own address) */
 static const uint8_t *addrA(void) { return W.iface[0].mac; }
@@ -200,7 +214,8 @@ static int towardsB(int ev) { int n = 0; for (int i = 0; i < EM[ev - X_EMIT0].n;
 static void x_name(int ev, char *buf, size_t cap) {
     static const char *n[] = {"Discover(M1)->A", "Discover(M1 via BR)->A", "Discover(M1)->B", "deliver oldest in-flight frame to B", "Hello(PEER)->B", "Probe(for PEER)->B",
                               "Query(M1)->B", "Query(M1 via BR)->B", "Reset->B", "Train(from responder C, Ethernet source S0 as ordered by the mapper)->B", "Reset(quick discovery)->B",
-                              "Emit(M1)->X, a third interface of A's host [Probe p0 S0>PEER]"};
+                              "Emit(M1)->X, a third interface of A's host [Probe p0 S0>PEER]",
+                              "QueryLargeTlv(icon, M1)->B while B's icon getter fails"};
     if (ev < X_EMIT0) { snprintf(buf, cap, "%s", n[ev]); return; }
     size_t o = (size_t)snprintf(buf, cap, "Emit(M1)->A[");
     for (int i = 0; i < EM[ev - X_EMIT0].n; i++) {
@@ -210,7 +225,8 @@ static void x_name(int ev, char *buf, size_t cap) {
     snprintf(buf + o, cap - o, "]");
 }
 static int x_enabled(int ev) {
-    if (ev == X_EMIT_X) return A.a == 4;      /* the emitting host is multi-homed: it also emits on another interface */
+    if (ev == X_EMIT_X) return A.a == 4;
+    if (ev == X_QLT_B) return A.a == 3;       /* run 3: the host has no icon (getter fails): a large-property request between observation and Query */      /* the emitting host is multi-homed: it also emits on another interface */
     if (A.a >= 3 && (ev == X_DISC_A_BR || ev == X_QUERY_B_BR || ev == X_HELLO_B || ev == X_PROBE_PEER_B || ev == X_OTHER_EMITTER_B)) return 0;
     if (ev == X_DELIVER) return M10.qn > 0;
     if (ev >= X_EMIT0) return M10.qn + towardsB(ev) <= QCAP;
@@ -254,6 +270,7 @@ static void x_apply(int ev) {
             M10.delivered = 0; break; }
         case X_OTHER_EMITTER_B:     /* unrelated traffic: a third responder emits towards B with the same spoofed Ethernet source */
             fb_base(f, addrB(), vf_station[ST_S0], 0, 0x03, addrB(), vf_station[ST_PEER], 0); deliver_to(1, f, 32); break;
+        case X_QLT_B: { pev e = ev_qlt(0, ST_M1, ST_M1, 5, 0x0E, 0); len = pev_build(&e, 1, f); deliver_to(1, f, len); break; }
         case X_EMIT_X: {      /* served on interface 2 of the same responder process; nothing of it reaches B */
             fb_desc dx; dx.type = 1; dx.pause = 0; memcpy(dx.src, vf_station[ST_S0], 6); memcpy(dx.dst, vf_station[ST_PEER], 6);
             len = fb_emit(f, W.iface[2].mac, vf_station[ST_M1], W.iface[2].mac, vf_station[ST_M1], 0, 0x0055, 1, &dx, 1);
@@ -365,6 +382,7 @@ int main(int argc, char **argv) {
         for (int a = 0; a < 16; a++) { EM[NEMIT].n = 1; EM[NEMIT].d[0] = (uint8_t)a; NEMIT++; }
         /* two-descriptor lists: pauses do not influence what B records; only the first descriptor varies its pause */
         for (int a = 0; a < 16; a++) for (int b = 0; b < 16; b++) { if (b & 2) continue; EM[NEMIT].n = 2; EM[NEMIT].d[0] = (uint8_t)a; EM[NEMIT].d[1] = (uint8_t)b; NEMIT++; }
+        if (A.a == 3) W.host.fail |= VF_G_ICON;
         if (A.a == 3) {      /* the mapper-chosen Ethernet source is the observer's own address (singles, and as the first of a pair); reduced list of the other descriptors and events */
             static const uint8_t others[6] = {4, 5, 12, 13, 20, 21};
             NEMIT = 0;
